@@ -96,6 +96,18 @@ TIES = {
    'bp-nested-else': ed(CK, ("            elif domains.is_email_in_dotless_domain(email_address):\n                self.tag('invalid-report-msgid-bugs-to', report_msgid_bugs_to)\n", "            else:\n                if domains.is_email_in_dotless_domain(email_address):\n                    self.tag('invalid-report-msgid-bugs-to', report_msgid_bugs_to)\n")),
    'bp-independent-reorder': ed(CK, ("        translator_emails = {}\n        for translator in translators:", "        translator_emails = {}\n        # addresses seen so far:\n        for translator in translators:"),
                                     ("            translator_name, translator_email = parse_address(translator)\n            del translator_name\n", "            translator_name, translator_email = parse_address(translator)\n")),
+   # check_comments
+   'cm-template-test-inverted': ed(CK, ("        if not ctx.is_template:\n            regexs |= {", "        if ctx.is_template:\n            regexs |= {")),
+   'cm-pattern-moved': ed(CK, ("            r\"\\bTHE PACKAGE'S COPYRIGHT HOLDER\\b\",\n        }", "        }"), ("                r'\\bFIRST AUTHOR\\b',", "                r'\\bFIRST AUTHOR\\b',\n                r\"\\bTHE PACKAGE'S COPYRIGHT HOLDER\\b\",")),
+   'cm-pattern-dropped': ed(CK, ("                r'<EMAIL@ADDRESS>',\n", "")),
+   'cm-pattern-changed': ed(CK, ("            r'\\bCopyright \\S+ YEAR\\b',", "            r'\\bCopyright \\S* YEAR\\b',")),
+   'cm-fullmatch': ed(CK, ("            match = regex.search(line)", "            match = regex.fullmatch(line)")),
+   'cm-split-newline': ed(CK, ("        for line in ctx.file.header.splitlines():", "        for line in ctx.file.header.split('\\n'):")),
+   'cm-tag-whole-header': ed(CK, ("            self.tag('boilerplate-in-initial-comments', line)", "            self.tag('boilerplate-in-initial-comments', ctx.file.header)")),
+   'cm-break-after-first': ed(CK, ("            self.tag('boilerplate-in-initial-comments', line)", "            self.tag('boilerplate-in-initial-comments', line)\n            break")),
+   'bp-cm-set-order': ed(CK, ("            r'\\bPACKAGE package\\b',\n            r'\\bCopyright \\S+ YEAR\\b',", "            r'\\bCopyright \\S+ YEAR\\b',\n            r'\\bPACKAGE package\\b',"), ("                r'\\bFIRST AUTHOR\\b',\n                r'<EMAIL@ADDRESS>',", "                r'<EMAIL@ADDRESS>',\n                r'\\bFIRST AUTHOR\\b',")),
+   'bp-cm-positive-form': ed(CK, ("            if match is None:\n                continue\n            self.tag('boilerplate-in-initial-comments', line)", "            if match is not None:\n                self.tag('boilerplate-in-initial-comments', line)")),
+   'bp-cm-rename': ed(CK, ("        regex = re.compile(str.join('|', regexs))\n        for line in ctx.file.header.splitlines():\n            match = regex.search(line)\n            if match is None:", "        boilerplate = re.compile(str.join('|', regexs))\n        for line in ctx.file.header.splitlines():\n            match = boilerplate.search(line)\n            if match is None:")),
   }},
 }
 tie_edits.TIES.update(TIES)
